@@ -4,9 +4,9 @@
 # deliverables in /tmp/seed9/<property>.out. Confirms the change (suite passes with it apart from the
 # demo, demo fails with it and passes without), stores it under /verif/seeded/<seed-name>/ and runs
 # the given checks against /repo with the patch applied.
-export GOFLAGS=-mod=mod GOPROXY=off GOSUMDB=off GOTOOLCHAIN=local
+export GOFLAGS=-mod=mod GOPROXY=off GOSUMDB=off GOTOOLCHAIN=local SEEDROUND=${SEEDROUND:-seed9}
 P=$1; NAME=$2; shift 2
-WT=/tmp/seed9/$P; D=/tmp/seed9/$P.out
+R=${SEEDROUND:-seed9}; WT=/tmp/$R/$P; D=/tmp/$R/$P.out
 OUT=/verif/seeded/$NAME; mkdir -p $OUT
 cp $D/patch.diff $OUT/patch.diff; cp $D/demo_test.go.txt $OUT/demo_test.go.txt; cp $D/notes.md $OUT/notes.md 2>/dev/null
 cd $WT
@@ -38,7 +38,7 @@ import json,sys
 p,name,suite,dw,dwo,res=sys.argv[1:7]
 meta={"property":p,"seed":name,"existing_suite_non_ok_lines_with_patch":int(suite),"demo_with_patch":dw,"demo_without_patch":dwo,"checks_run_with_patch_applied_to_repo(violation lines)":res.strip(),
  "how_confirmed":"tools/seedcheck9.sh: full suite with patch (excluding the demo), demo with and without patch in the agent's scratch worktree, then /verif checks with the patch applied to /repo and reverted",
- "origin":"round 9 sub-agent, given only the property text and a scratch worktree /tmp/seed9/"+p}
+ "origin":"round "+__import__("os").environ.get("SEEDROUND","seed9")[4:]+" sub-agent, given only the property text and a scratch worktree /tmp/"+__import__("os").environ.get("SEEDROUND","seed9")+"/"+p}
 try:
     old=json.load(open(f"/verif/seeded/{name}/meta.json")); old.update(meta); meta=old
 except Exception: pass
